@@ -823,11 +823,27 @@ def _unify_var(
     """Helper function for unification of type or const variables."""
     if var in subst:
         return unify(subst[var], t, subst)
-    if isinstance(t, ExistentialTypeVar) and t in subst:
+    if isinstance(t, ExistentialVar) and t in subst:
         return unify(var, subst[t], subst)
-    if var in t.unsolved_vars:
+    if _occurs(var, t, subst):
         return None
     return {var: t, **subst}
+
+
+def _occurs(var: ExistentialVar, t: Type | Const, subst: "Subst") -> bool:
+    """Occurs check: whether `var` is contained in `t` once the solutions recorded in
+    `subst` are taken into account.
+
+    Looking only at `t.unsolved_vars` is not enough since `subst` is not applied to the
+    types it maps to: binding `?A := (?B)` while `?B := (?A)` is already recorded would
+    make the substitution cyclic.
+    """
+    for v in t.unsolved_vars:
+        if v == var:
+            return True
+        if v in subst and _occurs(var, subst[v], subst):
+            return True
+    return False
 
 
 def _unify_args(
